@@ -1030,6 +1030,10 @@ class Interp:
         class _KV:
             pass
         pairs = self.comprehension(st, fr, ast.Tuple(elts=[node.key, node.value], ctx=ast.Load()), node.generators)
+        if len(pairs) == 1 and isinstance(pairs[0], VComp):
+            # {k: e for k, v in M.items()} over a symbolic map: the same as dict((k, e) for ...)
+            from . import shims
+            return shims._b_dict(self, st, [pairs[0]], {})
         d = VDict()
         for p in pairs:
             self.dict_set(st, d, p.items[0], p.items[1])
